@@ -160,4 +160,19 @@ Section Dict.
       intros ->. apply H1. apply in_map_iff. exists (k, v1); auto.
     - f_equal; auto.
   Qed.
+
+  Lemma dict_pop_keys_incl (d : list (K * V)) k x :
+    In x (map fst (dict_pop keqb d k)) -> In x (map fst d).
+  Proof.
+    induction d as [|[k0 v0] d IH]; simpl; auto.
+    destruct (keqb k0 k); simpl; intuition.
+  Qed.
+
+  Lemma dict_pop_NoDup (d : list (K * V)) k :
+    NoDup (map fst d) -> NoDup (map fst (dict_pop keqb d k)).
+  Proof.
+    induction d as [|[k0 v0] d IH]; simpl; intros Hn; auto.
+    inversion Hn; subst. destruct (keqb k0 k); simpl; auto.
+    constructor; auto. intros Hin. apply H1. eapply dict_pop_keys_incl; eauto.
+  Qed.
 End Dict.
